@@ -286,3 +286,18 @@ def shard(mon, tier, rng, shard_no, nshards):
         icecream_geometry(mon, rng, float(np.round(rng.uniform(5, 85), 2)), int(Ks[(shard_no + j) % len(Ks)]))
     if len(mon.samples) < 2:
         mon.sample({"example": "dominates([1,0],[0,0]) under W=[[1,0],[1,1]] : exact values (1,1) => True"})
+
+
+def replay(mon, rec):
+    c = rec["case"]
+    if "a" not in c:
+        print("recorded case:", c)
+        return
+    W = np.array(c["W"], float)
+    order = gen.make_order("W", W=W)
+    a, b = np.array(c["a"], float), np.array(c["b"], float)
+    vals = [sum(Fraction(float(w)) * (Fraction(float(x)) - Fraction(float(y))) for w, x, y in zip(row, a, b)) for row in W]
+    got = as_bool(order.dominates(a, b))
+    print(f"dominates={got}; exact facet values {[float(v) for v in vals]}")
+    if got != (min(vals) >= 0):
+        mon.violation(rec["mechanism"], "reproduced", c)
